@@ -113,7 +113,7 @@ def c12(tier):
 
     for i, l in enumerate(lex):
         ob = bylex.get(i)
-        if ob is None and ("lex", i) in dead:
+        if ob is None and (("lex", i) in dead or lib.INCOMPLETE):
             continue
         if ob is None:
             raise Inconclusive("lexer input %d not replayed" % i)
@@ -181,7 +181,7 @@ def c10(tier):
     known = {f["id"]: f for f in known_findings("C10")}
     for i, p in enumerate(progs):
         ob = recs.get(i)
-        if ob is None and i in dead:
+        if ob is None and (i in dead or lib.INCOMPLETE):
             continue
         if ob is None:
             raise Inconclusive("program %d not replayed" % i)
@@ -258,7 +258,7 @@ def c11(tier):
     drift = 0
     for i, p in enumerate(progs):
         ob = recs.get(i)
-        if ob is None and i in dead:
+        if ob is None and (i in dead or lib.INCOMPLETE):
             continue
         if ob is None:
             raise Inconclusive("program %d not replayed" % i)
